@@ -7,7 +7,19 @@ import (
 )
 
 // Register announces the implemented checks.
-func Register(reg func(id, level string, f func(*load.Prog, *report.Report))) {
+func Register(reg0 func(id, level string, f func(*load.Prog, *report.Report))) {
+	// properties whose argument takes the generated primitives as trusted leaves also check that the primitives
+	// they reach are intact
+	reg := func(id, level string, f func(*load.Prog, *report.Report)) {
+		if _, ok := leafEntries[id]; !ok {
+			reg0(id, level, f)
+			return
+		}
+		reg0(id, level, func(p *load.Prog, r *report.Report) {
+			f(p, r)
+			leafIntegrity(p, r, id)
+		})
+	}
 	reg("C01", "proof", C01)
 	reg("C02", "proof", C02)
 	reg("C03", "proof", C03)
